@@ -157,6 +157,11 @@ func (g *gen) leaf(nv int) *NodeSpec {
 		n.HasFb = g.chance(0.5)
 	case "func":
 		n.Styles = string([]byte{pick(g.r, []byte("RA")), pick(g.r, []byte("RA")), pick(g.r, []byte("RA"))})
+		if g.chance(0.12) { // phases left unset fall back to the base node's defaults
+			st := []byte(n.Styles)
+			st[1+g.r.IntN(2)] = '-'
+			n.Styles = string(st)
+		}
 		n.HasFb = g.chance(0.5)
 		n.FnForm = pick(g.r, []string{"opt", "builder"})
 	}
@@ -797,7 +802,16 @@ func withCancellation(sc *Scn, r *rand.Rand) {
 	}
 	sc.Runs = 1
 	mr := runModelUncancelled(sc).Runs[0]
-	if r.IntN(3) == 0 && mr.EndT > 0 {
+	// the deadline variant needs the model's clock to be exact; it is, as long as
+	// only the scripted callbacks consume time ("at least w" leaves retry waits
+	// free to be longer), so it is used only when no retry wait is configured
+	noWaits := true
+	for _, n := range sc.Nodes {
+		if n.config().WaitMs > 0 {
+			noWaits = false
+		}
+	}
+	if r.IntN(3) == 0 && mr.EndT > 0 && noWaits {
 		d := r.Int64N(mr.EndT / 1000)
 		if d%10000 == 0 {
 			d += 1 + r.Int64N(9999)
